@@ -131,6 +131,15 @@ impl WorldC {
         self.server.update(d);
         let r = self.transport.update(d, &mut self.server);
         obs.count("op.tick_server");
+        // every update reads the socket until it is empty: nobody's datagram waits for a later update because of what somebody
+        // else sent (a zero-length datagram, junk, a burst) — unless a receive error was injected
+        if r.is_ok() && !recv_fault {
+            obs.count("oracle.C20.update_drains_socket");
+            let left = self.net.0.borrow().inbox.get(&self.server_addr).map(|q| q.len()).unwrap_or(0);
+            if left > 0 {
+                obs.violate("C20", "update-left-datagrams-unread", "server", format!("{} datagram(s) still in the server's socket after a successful update", left));
+            }
+        }
         // the hosted in-memory client is served by the application itself, like any listen server does
         if let Some(lc) = self.local.as_mut() {
             if !lc.is_disconnected() {
@@ -280,6 +289,12 @@ impl WorldC {
         // status mirroring: the message layer never says connected while the handshake layer is not
         obs.count("oracle.C20.client_status");
         let nc_disc = transport.disconnect_reason();
+        // a refusal belongs to the handshake: once a client has been connected, a refusal that turns up late (the relay held it
+        // back, or replays it) is no reason to end its session
+        if s.client_seen_connected && matches!(nc_disc, Some(renet_netcode::NetcodeDisconnectReason::ConnectionDenied)) && !s.tainted {
+            obs.violate("C20", "healthy-session-ended-by-stale-handshake-reply", "client/ConnectionDenied", format!("slot {} id {}", j, s.id));
+            s.tainted = true;
+        }
         if client.is_connected() && nc_disc.is_some() {
             // allowed only until the next transport.update, which we have just run in tick_client
         }
@@ -552,6 +567,24 @@ impl WorldC {
                     obs.count("fault.client_crash");
                 }
             }
+            K_STALEREPLY => {
+                // a handshake reply the server once sent to this client (a challenge, a denial from a moment when it was full)
+                // arrives again, possibly long after the client connected
+                let j = op.a as usize % ns;
+                let to = self.slots[j].addr;
+                let cands: Vec<usize> = (0..self.ledger.len())
+                    .filter(|&i| self.ledger[i].1 == self.server_addr && self.ledger[i].2 == to && !self.ledger[i].0.is_empty() && matches!(self.ledger[i].0[0] & 0xF, 1 | 2))
+                    .collect();
+                if cands.is_empty() {
+                    return;
+                }
+                let denied: Vec<usize> = cands.iter().copied().filter(|&i| self.ledger[i].0[0] & 0xF == 1).collect();
+                let ix = if !denied.is_empty() && op.b % 2 == 0 { denied[(op.b / 2) as usize % denied.len()] } else { cands[(op.b / 2) as usize % cands.len()] };
+                obs.count("fault.stale_handshake_reply");
+                let (bytes, from, to) = self.ledger[ix].clone();
+                self.meta[ix].4 += 1;
+                self.enqueue(to, bytes, from);
+            }
             K_SETMAX => {
                 // the application moves the client limit at run time: nobody who is connected is affected by that
                 let n = 1 + (op.a % 4) as usize;
@@ -696,6 +729,9 @@ impl WorldC {
             w[13] = 1;
         }
         let dt_menu = [0u64, 16, 16, 16, 33, 50, 100, 100, 250, 250, 500, 1000];
+        if rng.chance(1, 50) {
+            return Op::new(K_STALEREPLY, j as u64, rng.below(16), 0, 0);
+        }
         if self.cfg.get("setmax") == 1 && rng.chance(1, 40) {
             return Op::new(K_SETMAX, rng.below(4), 0, 0, 0);
         }
